@@ -177,7 +177,7 @@ theorem C16_stream_bytes (i : StreamIn) (hn : 1 ≤ i.chunkSize) (hc : i.caps.al
     let good := fun seg : List Ev => seg.any isDone = true ∧ seg.any isRaised = false
       ∧ (seg.filterMap chunkOf).flatten = (dataOf i).drop p
     (∀ seg ∈ cons.take 1, good seg) ∧ ((i.isFile = true ∨ i.bufferNow = true) → ∀ seg ∈ cons, good seg) := by
-  have h := model_chunkConcat i hn hc
+  have h := model_chunkConcat i hn hc []
   simp only [cChunkConcat, expected, hp, Option.map_some, Bool.and_eq_true] at h
   have hgood : ∀ seg, segOk ((dataOf i).drop p) seg = true →
       seg.any isDone = true ∧ seg.any isRaised = false ∧ (seg.filterMap chunkOf).flatten = (dataOf i).drop p := by
@@ -195,6 +195,47 @@ theorem C16_stream_bytes (i : StreamIn) (hn : 1 ≤ i.chunkSize) (hc : i.caps.al
     rw [if_pos this] at h2
     exact hgood seg (List.all_eq_true.mp h2 seg hseg)
 
+/-- C16 (re-evaluation; seed C16-f): a content made from a stream (not a file, not buffered) WITH a seek offset the stream accepts
+seeks again every time its bytes are asked for: EVERY consumption completes without error and yields the bytes from the position its
+seek leads to, the stream standing where the previous evaluation left it. -/
+theorem C16_reeval (i : StreamIn) (hn : 1 ≤ i.chunkSize) (hc : i.caps.all (1 ≤ ·) = true) (off : Int) (wh p : Nat)
+    (hf : i.isFile = false) (hb : i.bufferNow = false) (hsk : i.seekTo = some (off, wh)) (hp : startPos i = some p) :
+    reevalOk i off wh i.pos0 (consumptions (streamModel i)) = true := by
+  have h := model_reeval i hn hc []
+  simpa [cReeval, hsk, hp, hf, hb, posBefore] using h
+
+/-- … and when the offset counts from the start or the end of the data (`seek_whence` 0 or 2) that is the SAME byte string every
+time: the bytes from the requested offset to the end of the data, in the first, second, … consumption alike. -/
+theorem C16_reeval_abs (i : StreamIn) (hn : 1 ≤ i.chunkSize) (hc : i.caps.all (1 ≤ ·) = true) (off : Int) (wh p : Nat)
+    (hf : i.isFile = false) (hb : i.bufferNow = false) (hsk : i.seekTo = some (off, wh)) (hw : wh ≠ 1) (hp : startPos i = some p) :
+    ∀ seg ∈ consumptions (streamModel i), seg.any isDone = true ∧ seg.any isRaised = false
+      ∧ (seg.filterMap chunkOf).flatten = (dataOf i).drop p := by
+  have h := C16_reeval i hn hc off wh p hf hb hsk hp
+  rw [reevalOk_abs hw] at h
+  have hp0 : seekFrom i off wh 0 = p := by
+    have h2 := seekRes_seekFrom (s := ⟨dataOf i, i.pos0⟩) hf hsk hp rfl
+    have h3 := seekRes_startPos (s := ⟨dataOf i, i.pos0⟩) rfl (Or.inr rfl) hp
+    rw [h3] at h2
+    have : p = seekFrom i off wh i.pos0 := by simpa using h2
+    rw [this]
+    simp only [seekFrom]
+    by_cases h0 : wh = 0 <;> simp [h0, hw]
+  rw [hp0] at h
+  intro seg hseg
+  have hs := List.all_eq_true.mp h seg hseg
+  simp only [segOk, Bool.and_eq_true, Bool.not_eq_true', beq_iff_eq] at hs
+  exact ⟨hs.1.1, hs.1.2, hs.2⟩
+
+/-- C16 (`c == c`): a content whose every evaluation is asked for the same bytes - a file (opened afresh), a buffered content, a
+stream content with a seek offset counted from the start or the end - equals itself every time it is compared, however often it was
+consumed before. -/
+theorem C16_eq_self (i : StreamIn) (hn : 1 ≤ i.chunkSize) (hc : i.caps.all (1 ≤ ·) = true) (p : Nat) (hp : startPos i = some p)
+    (hcfg : i.isFile = true ∨ i.bufferNow = true ∨ absSeek i = true) :
+    (streamEqModel i).filterMap eqAnswer = List.replicate i.eqs true := by
+  have h := model_eqSelf i hn hc []
+  have hc' : (i.isFile || i.bufferNow || absSeek i) = true := by rcases hcfg with h | h | h <;> simp [h]
+  simpa [cEqSelf, expected, hp, hc'] using h
+
 /-- C16 (lazy): without `buffer_now` nothing is read, sought or opened before the content is iterated (the log
 starts with `made`); with `buffer_now` every read happens at construction (no stream event after `made`). -/
 theorem C16_stream_lazy (i : StreamIn) :
@@ -203,7 +244,7 @@ theorem C16_stream_lazy (i : StreamIn) :
   constructor
   · intro h; exact ⟨_, streamModel_lazy h⟩
   · intro h e he
-    have := model_lazy i
+    have := model_lazy i []
     simp only [cLazy, h, if_true, List.all_eq_true] at this
     simpa using this e he
 
@@ -302,31 +343,31 @@ theorem C16_snapshot_after_changes (cur : List Bytes) (later : List (List Bytes)
 theorem holds_model_no_ctype (i : Input) (hw : i.wf = true) (hc : ∀ ct, i ≠ .ctype ct) (hs : ∀ cts, i ≠ .ctypeSeq cts) :
     holds i (model i) = true := by
   cases i with
-  | eq ctA ctB a b => simp [holds, clauses, model, cShape, cBytes, cEq, cText, cJson, cChunking, cAsText, cCharset, cChunkSizes, cChunkConcat, cLazy, cCtRoundtrip, cCtHistory, cSnapshot]
+  | eq ctA ctB a b => simp [holds, clauses, model, cShape, cBytes, cEq, cText, cJson, cChunking, cAsText, cCharset, cChunkSizes, cChunkConcat, cReeval, cEqSelf, cLazy, cCtRoundtrip, cCtHistory, cSnapshot]
   | text s =>
     have hs : s.all validCp = true := hw
-    simp [holds, clauses, C16_text_roundtrip s hs, cShape, cBytes, cEq, cText, cJson, cChunking, cAsText, cCharset, cChunkSizes, cChunkConcat, cLazy, cCtRoundtrip, cCtHistory, cSnapshot, utf8Ref_utf8Encode s hs]
+    simp [holds, clauses, C16_text_roundtrip s hs, cShape, cBytes, cEq, cText, cJson, cChunking, cAsText, cCharset, cChunkSizes, cChunkConcat, cReeval, cEqSelf, cLazy, cCtRoundtrip, cCtHistory, cSnapshot, utf8Ref_utf8Encode s hs]
   | json d =>
     have hs : d.all validCp = true := hw
-    simp [holds, clauses, model, cShape, cBytes, cEq, cText, cJson, cChunking, cAsText, cCharset, cChunkSizes, cChunkConcat, cLazy, cCtRoundtrip, cCtHistory, cSnapshot, utf8Ref_utf8Encode d hs]
+    simp [holds, clauses, model, cShape, cBytes, cEq, cText, cJson, cChunking, cAsText, cCharset, cChunkSizes, cChunkConcat, cReeval, cEqSelf, cLazy, cCtRoundtrip, cCtHistory, cSnapshot, utf8Ref_utf8Encode d hs]
   | decode isText cs chunks whole =>
     have h1 : (iterText latin1 chunks).map List.flatten = decodeAll latin1 chunks.flatten := C16_chunk_independent latin1 latin1_lawful chunks
     have h2 : (iterText utf8 chunks).map List.flatten = decodeAll utf8 chunks.flatten := C16_chunk_independent utf8 utf8_lawful chunks
     have h3 : (iterText ascii chunks).map List.flatten = decodeAll ascii chunks.flatten := C16_chunk_independent ascii ascii_lawful chunks
     cases isText <;> cases cs <;>
       simp [holds, clauses, model, decodeModel, cShape, cBytes, cEq, cText, cJson, cChunking, cAsText, cCharset, cChunkSizes,
-        cChunkConcat, cLazy, cCtRoundtrip, cCtHistory, cSnapshot, wholeRef, h1, h2, h3, decodeAll_latin1, decodeAll_utf8, decodeAll_ascii] <;>
+        cChunkConcat, cReeval, cEqSelf, cLazy, cCtRoundtrip, cCtHistory, cSnapshot, wholeRef, h1, h2, h3, decodeAll_latin1, decodeAll_utf8, decodeAll_ascii] <;>
       cases whole <;> simp
   | stream i =>
     have hwf : i.wf = true := hw
     simp only [StreamIn.wf, Bool.and_eq_true, decide_eq_true_eq] at hwf
     have hn : 1 ≤ i.chunkSize := hwf.1.1
     simp [holds, clauses, model, cShape, cBytes, cEq, cText, cJson, cChunking, cAsText, cCharset, cCtRoundtrip, cCtHistory, cSnapshot,
-      model_chunkSizes i, model_chunkConcat i hn hwf.2, model_lazy i]
+      model_chunkSizes i, model_chunkConcat i hn hwf.2, model_lazy i, model_reeval i hn hwf.2, model_eqSelf i hn hwf.2]
   | ctype ct => exact absurd rfl (hc ct)
   | ctypeSeq cts => exact absurd rfl (hs cts)
   | copy init ops =>
-    simp [holds, clauses, model, cShape, cBytes, cEq, cText, cJson, cChunking, cAsText, cCharset, cChunkSizes, cChunkConcat, cLazy, cCtRoundtrip, cCtHistory, model_snapshot init ops]
+    simp [holds, clauses, model, cShape, cBytes, cEq, cText, cJson, cChunking, cAsText, cCharset, cChunkSizes, cChunkConcat, cReeval, cEqSelf, cLazy, cCtRoundtrip, cCtHistory, model_snapshot init ops]
 
 /-- which inputs fall in a known-finding class (as `TTV.Drv.C16.classes`) -/
 def noFinding : Input → Bool
@@ -370,11 +411,11 @@ theorem holds_model_partial (i : Input) (hw : i.wf = true) (hf : noFinding i = t
   | ctype ct =>
     have hf' : inFinding ct = false := by simpa [noFinding] using hf
     have := C16_ct_roundtrip_partial ct hw hf'
-    simp [holds, clauses, this, cShape, cBytes, cEq, cText, cJson, cChunking, cAsText, cCharset, cChunkSizes, cChunkConcat, cLazy, cCtRoundtrip, cCtHistory, cSnapshot]
+    simp [holds, clauses, this, cShape, cBytes, cEq, cText, cJson, cChunking, cAsText, cCharset, cChunkSizes, cChunkConcat, cReeval, cEqSelf, cLazy, cCtRoundtrip, cCtHistory, cSnapshot]
   | ctypeSeq cts =>
     have h := C16_ct_history_independent cts hw (by simpa [noFinding] using hf)
     simp only [holds, clauses, h, List.all_cons, List.all_nil, cShape, cBytes, cEq, cText, cJson, cChunking, cAsText, cCharset, cChunkSizes,
-      cChunkConcat, cLazy, cCtRoundtrip, cSnapshot, cCtHistory, Bool.true_and, Bool.and_true, List.length_map, beq_self_eq_true]
+      cChunkConcat, cReeval, cEqSelf, cLazy, cCtRoundtrip, cSnapshot, cCtHistory, Bool.true_and, Bool.and_true, List.length_map, beq_self_eq_true]
     rw [List.all_eq_true]
     intro q hq
     have := zip_map_self (fun ct : CT => (render ct, Parsed.ok { ct.lowered with params := sortParams ct.lowered.params })) cts q hq
@@ -422,6 +463,16 @@ theorem C16_src_content_from_reader (bufferNow : Bool) (cs : List Bytes) :
       = some (if bufferNow then .buffered cs else .evaluateEachTime) := by
   -- evaluated on the generated steps (so the order of the content-type default and the buffering, which do not interact, is free)
   cases bufferNow <;> simp [ContentSkel.readerI, Generated.ContentSrc.contentFromReader]
+
+/-- `content_from_stream` and `content_from_file` as found in the source hand `content_from_reader` a FUNCTION whose every call makes a
+new `_iter_chunks` generator (for a file: opens it, reads, closes): each evaluation of the content is the model's `readAll` - seek
+again, read to the end -, which is what `lazyIters` / `lazyEqs` run once per consumption / operand.  (Seed C16-f captured one generator
+object instead: only the first evaluation read anything.) -/
+theorem C16_src_from_source (i : StreamIn) (s : Stream) (consumer : Bool) :
+    (ContentSkel.makeI (if i.isFile then Generated.ContentSrc.contentFromFile else Generated.ContentSrc.contentFromStream) none).bind
+      (ContentSkel.evalReaderI i s consumer) = some (readAll i s consumer) := by
+  cases h : i.isFile <;>
+    simp [Generated.ContentSrc.contentFromFile, Generated.ContentSrc.contentFromStream, ContentSkel.makeI, ContentSkel.evalReaderI, h]
 
 /-- the model's `chunks` is the interpretation of `_iter_chunks` as found in the source: the optional seek first, then the read
 loop in one of its two shapes — `chunk = read(); while chunk: yield chunk; chunk = read()` or the same loop rotated, `while True:
